@@ -181,6 +181,9 @@ def judge_call(ctx, st, case, S, P, R, pat, rep, mm, label=""):
     elif form:
         kw["ignore_atoms_should_not_be_deleted_twice"] = [None, False, np.bool_(False), 0][form]
     st.seen("flag_form", "%s/%s" % (case["ignore"], ["omitted-or-True", "bool", "numpy.bool_", "int"][form]))
+    if case["s"] % 5 == 0:
+        kw["verbose"] = True        # the diagnostics must not get in the way of the verdict
+        st.count("replace_calls_with_verbose_output")
     obs = replcase.observe_replace(S, P, R, case["s"], **kw)
     st.count("replace_calls")
     w = {"case": {k: case[k] for k in ("topology", "repl", "cell", "replace_all", "ignore", "fraction", "sample")}, "elements": list(S.elements),
